@@ -111,6 +111,7 @@ def check(run, project):
     # ---- T2
     t2(run, project)
     t6(run, project)
+    t6b(run, project)
     # ---- T3
     forbidden = {roles.buffer_param, roles.iter_var}
     for c in walk_no_nested(fn):
@@ -318,6 +319,46 @@ def t6(run, project):
                "not turned into an iterator first): for a bytes / bytearray / list source every traversal begins at the first byte "
                "again, so the decoder sees the first digits over and over - the result depends on the kind of iterable", module=mod,
                node=stmt or fn, func=fname, construct=f"{fname} traversals of buffer")
+
+
+def _raw_pulls(mod, fn, param, depth=0):
+    """next(<param>) calls reached by the *raw* parameter (no `param = iter(param)` before them), directly or through a
+    function of the module the raw parameter is handed to"""
+    rebind = [a for a in fn.body if isinstance(a, ast.Assign) and len(a.targets) == 1 and norm(a.targets[0]) == param
+              and isinstance(a.value, ast.Call) and call_name(a.value) == "iter" and a.value.args and norm(a.value.args[0]) == param]
+    cut = order(rebind[0]) if rebind else None
+    out = []
+    for n in walk_no_nested(fn):
+        if not (isinstance(n, ast.Name) and n.id == param and isinstance(n.ctx, ast.Load)):
+            continue
+        if cut is not None and order(n) > cut:
+            continue
+        p = n._parent
+        if isinstance(p, ast.Call) and call_name(p) == "next" and p.args and p.args[0] is n:
+            out.append(p)
+        elif isinstance(p, ast.Call) and isinstance(p.func, ast.Name) and n in p.args and depth < 2:
+            try:
+                callee = mod.function(p.func.id)
+            except (AnalysisError, KeyError):
+                continue
+            cparams = [a.arg for a in callee.args.args]
+            if p.args.index(n) < len(cparams) and _raw_pulls(mod, callee, cparams[p.args.index(n)], depth + 1):
+                out.append(p)
+    return out
+
+
+def t6b(run, project):
+    """source-agnostic, second half: next() needs an iterator.  A scanner that pulls with next() must have turned its raw
+    `buffer` parameter into one (`buffer = iter(buffer)`); next() on the raw parameter is a TypeError for bytes / bytearray /
+    list sources and works only when the caller happens to pass an iterator."""
+    for modname, fname in BUFFER_FUNCS:
+        mod = project.module(modname)
+        fn = mod.function(fname)
+        bad = _raw_pulls(mod, fn, "buffer")
+        run.ob("T6", not bad, f"{modname.split('.')[-2]}.{fname}: next() only on an iterator made from the source",
+               f"`{norm(bad[0])[:80] if bad else ''}` pulls from the raw `buffer` parameter, which was not turned into an iterator "
+               "(`buffer = iter(buffer)`): a bytes / bytearray / list source raises TypeError, only an iterator source works - the result "
+               "depends on the kind of iterable", module=mod, node=bad[0] if bad else fn, func=fname, construct=f"{fname} next() on raw buffer")
 
 
 def t2(run, project):
